@@ -4,8 +4,8 @@
 //        one proxy; cluster config compression_strategy = disabled | set_get_only | allow_all delivered by UMCTL SETCLUSTER;
 //        <npre> raw values put into the stand-in directly (values that did not go through the compressor);
 //        then the commands, in order, through handle_cmd_ctx.  The optional D table is for the model driver only.
-//        -> "run <reply> ; <reply> ... | <key>=<stored> ..."   stored: r:<hex> stored bytes equal an argument of the case
-//           verbatim; c:<hex> stored bytes are a zstd frame (magic checked) of <hex>; x otherwise
+//        -> "run <reply> ; <reply> ... | <key>=<stored> ..."   stored: with strategy d r:<stored bytes>; otherwise c:<v> when the
+//           stored bytes are a zstd frame (magic checked) of v, else r:<bytes> when they equal an argument verbatim, else x
 //   cc <d|s|a> <n> <elem>*n        CmdCompressor::try_compressing_cmd_ctx alone -> "cc fwd <= | c:hex>* " | "cc invalid" | ...
 //   dr <d|s|a> <cmdname> <resp> [D ...]  CmdReplyDecompressor::decompress + the nil fallback of DecompressCommitHandler
 //   type <name>                    DataCmdType of the name, folded to the classes the model distinguishes
@@ -356,13 +356,21 @@ impl CompressionStrategyConfig for FixedStrategy {
     }
 }
 
-fn stored_token(b: &[u8], verbatim: &HashSet<Vec<u8>>) -> String {
-    if verbatim.contains(b) {
+// with compression disabled the stored bytes themselves; otherwise "c:<v>" when they are a zstd frame (magic checked) of v,
+// else "r:<bytes>" when they equal an argument of the case verbatim, else "x"
+fn stored_token(b: &[u8], verbatim: &HashSet<Vec<u8>>, disabled: bool) -> String {
+    if disabled {
         return format!("r:{}", hex(b));
     }
     match zstd::decode_all(b) {
         Ok(v) if b.len() >= 4 && b[..4] == ZSTD_MAGIC => format!("c:{}", hex(&v)),
-        _ => "x".to_string(),
+        _ => {
+            if verbatim.contains(b) {
+                format!("r:{}", hex(b))
+            } else {
+                "x".to_string()
+            }
+        }
     }
 }
 
@@ -436,7 +444,7 @@ pub fn run_case(rt: &tokio::runtime::Runtime, line: &str) -> String {
                 let dump: Vec<String> = store2
                     .lock()
                     .iter()
-                    .map(|(k, v)| format!("{}={}", hex(k), stored_token(v, &verbatim)))
+                    .map(|(k, v)| format!("{}={}", hex(k), stored_token(v, &verbatim, stok == "d")))
                     .collect();
                 format!("run {} | {}", outs.join(" ; "), dump.join(" "))
             })
